@@ -165,7 +165,9 @@ def _version_variants(ctx, origins):
             names.add(o.info["variant"])
         elif o.kind == "const" and o.info.get("ty") == VERSION_ADT:
             v = o.info.get("val") or {}
-            if v.get("zst") and len(adt["variants"]) == 1:
+            if v.get("variant") and v.get("adt") == VERSION_ADT:
+                names.add(v["variant"])
+            elif v.get("zst") and len(adt["variants"]) == 1:
                 names.add(adt["variants"][0]["name"])
             elif "int" in v and all(not x["fields"] for x in adt["variants"]) and v["int"] < len(adt["variants"]):
                 names.add(adt["variants"][v["int"]]["name"])
